@@ -125,7 +125,11 @@ func (r c04Rule) text() string {
 	return t
 }
 
-var c04TypeBits = map[string]rules.RequestType{"script": rules.TypeScript, "image": rules.TypeImage, "stylesheet": rules.TypeStylesheet, "document": rules.TypeDocument, "subdocument": rules.TypeSubdocument}
+var c04TypeBits = map[string]rules.RequestType{"script": rules.TypeScript, "image": rules.TypeImage, "stylesheet": rules.TypeStylesheet, "document": rules.TypeDocument, "subdocument": rules.TypeSubdocument,
+	"object": rules.TypeObject, "xmlhttprequest": rules.TypeXmlhttprequest, "media": rules.TypeMedia, "font": rules.TypeFont, "websocket": rules.TypeWebsocket, "ping": rules.TypePing, "other": rules.TypeOther}
+
+// c04TypeNames: the content-type modifiers in the order of their bits.
+var c04TypeNames = []string{"script", "stylesheet", "subdocument", "object", "image", "xmlhttprequest", "media", "font", "websocket", "ping", "other"}
 
 var c04DNSTypes = map[string]uint16{"A": 1, "AAAA": 28, "CNAME": 5, "TXT": 16, "HTTPS": 65, "CAA": 257, "ANY": 255}
 
@@ -234,6 +238,19 @@ func c04Reference(r c04Rule, q *rules.Request) bool {
 		p := r.pattern
 		if !(strings.HasPrefix(p, "||") || strings.HasPrefix(p, "http://") || strings.HasPrefix(p, "https://") || strings.HasPrefix(p, "://")) {
 			target = q.Hostname
+			// "/hostname." made of hostname characters only is a URL pattern
+			if len(p) > 3 && p[0] == '/' && p[len(p)-1] == '.' {
+				plain := true
+				for i := 1; i < len(p)-1; i++ {
+					ch := p[i]
+					if !(ch >= 'a' && ch <= 'z' || ch >= 'A' && ch <= 'Z' || ch >= '0' && ch <= '9' || ch == '.' || ch == '-') {
+						plain = false
+					}
+				}
+				if plain {
+					target = q.URL
+				}
+			}
 		}
 	}
 	if !refPatternMatch(r.pattern, r.matchCase, target) {
@@ -366,7 +383,7 @@ func c04Requests() (qs []c04Req) {
 		}
 	}
 	names := []string{"", "Mom", "Frank's laptop", "a,b", "x|y", "Dad"}
-	ips := []string{"", "127.0.0.1", "192.168.0.7", "fe80::1", "10.0.0.1"}
+	ips := []string{"", "127.0.0.1", "192.168.0.7", "fe80::1", "10.0.0.1", "fd00::17"}
 	tagsets := [][]string{nil, {"pc"}, {"phone"}, {"pc", "phone"}, {"printer", "tv"}}
 	for _, h := range []string{"example.org", "ads.sub.example.org", "1.2.3.4"} {
 		for _, dt := range []uint16{1, 28, 5, 65, 257} {
@@ -446,11 +463,11 @@ func c04Slots() []c04Slot {
 	return []c04Slot{
 		{"domain", []nv{{"example.org", false}, {"sub.example.org", true}, {"example.com", false}, {"google.*", false}, {"www.google.*", true}, {"co.uk", false}, {"example.*", false}, {"example.local", false}, {"shop.example.com", false}, {"example.com", true}},
 			func(r *c04Rule, vs []nv) { r.domains = vs }},
-		{"client", []nv{{"127.0.0.1", false}, {"192.168.0.0/24", true}, {"fe80::/10", false}, {"Frank's laptop", false}, {"a,b", false}, {"Mom", false}, {"Dad", true}, {"x|y", true}, {"192.168.0.0/16", false}, {"10.0.0.1", false}},
+		{"client", []nv{{"127.0.0.1", false}, {"192.168.0.0/24", true}, {"fe80::/10", false}, {"Frank's laptop", false}, {"a,b", false}, {"Mom", false}, {"Dad", true}, {"x|y", true}, {"192.168.0.0/16", false}, {"10.0.0.1", false}, {"Mom", true}, {"fd00::/8", false}},
 			func(r *c04Rule, vs []nv) { r.clients = vs }},
-		{"ctag", []nv{{"pc", false}, {"phone", true}, {"printer", false}, {"tv", true}},
+		{"ctag", []nv{{"pc", false}, {"phone", true}, {"printer", false}, {"tv", true}, {"pc", true}, {"phone", false}},
 			func(r *c04Rule, vs []nv) { r.ctags = vs }},
-		{"dnstype", []nv{{"A", false}, {"AAAA", true}, {"cname", false}, {"TXT", true}, {"HTTPS", false}, {"CAA", true}},
+		{"dnstype", []nv{{"A", false}, {"AAAA", true}, {"cname", false}, {"TXT", true}, {"HTTPS", false}, {"CAA", true}, {"A", true}},
 			func(r *c04Rule, vs []nv) { r.dnstypes = vs }},
 		{"types", []nv{{"script", false}, {"image", true}, {"stylesheet", false}, {"script", true}, {"subdocument", false}},
 			func(r *c04Rule, vs []nv) { r.types = vs }},
@@ -535,6 +552,29 @@ func c04Run(c *Ctx, qs []c04Req, only string) {
 		}
 		return true
 	})
+	// pattern-target layer: which string the pattern is applied to (URL or bare
+	// hostname) for patterns that spell out, embed or omit the scheme
+	for _, pat := range []string{"|http://example.org^", "*://example.org^", "p://example.org", "http://example.org^", "https://example.org^", "://example.org^", "example.org^",
+		"/example.org.", "/exa_mple.org.", "||example.org^", "|example.org|", "example.org|", "ws://example.org", "|ads.sub", "EXAMPLE.org^"} {
+		jobs = append(jobs, job{c04Rule{pattern: pat, denyallow: []string{"x.com"}}, "pattern-target"})
+		jobs = append(jobs, job{c04Rule{pattern: pat, matchCase: true, dnstypes: []nv{{"TXT", true}}}, "pattern-target"})
+	}
+	// content-type layer: every content-type modifier alone, negated, and every
+	// ordered pair in the three sign combinations, against a request of every type
+	var typeQs []c04Req
+	for _, t := range []rules.RequestType{rules.TypeDocument, rules.TypeSubdocument, rules.TypeScript, rules.TypeStylesheet, rules.TypeObject, rules.TypeImage, rules.TypeXmlhttprequest,
+		rules.TypeMedia, rules.TypeFont, rules.TypeWebsocket, rules.TypePing, rules.TypeOther} {
+		typeQs = append(typeQs, c04Req{rules.NewRequest("http://example.org/ads", "http://example.com/", t), fmt.Sprintf("url=http://example.org/ads src=http://example.com/ type=%d", t)})
+	}
+	for _, a := range c04TypeNames {
+		jobs = append(jobs, job{c04Rule{pattern: "||example.org^", types: []nv{{a, false}}}, "content-types"}, job{c04Rule{pattern: "||example.org^", types: []nv{{a, true}}}, "content-types"})
+		for _, b := range c04TypeNames {
+			if a != b {
+				jobs = append(jobs, job{c04Rule{pattern: "ads", types: []nv{{a, false}, {b, false}}}, "content-types"}, job{c04Rule{pattern: "ads", types: []nv{{a, false}, {b, true}}}, "content-types"},
+					job{c04Rule{pattern: "ads", types: []nv{{a, true}, {b, true}}}, "content-types"})
+			}
+		}
+	}
 	perSlot := map[string]int64{}
 	c.parallel(len(jobs), func(i int) {
 		if only != "" && jobs[i].r.text() != only {
@@ -546,7 +586,11 @@ func c04Run(c *Ctx, qs []c04Req, only string) {
 			mu.Unlock()
 			return
 		}
-		e, ok := c04CheckRule(c, jobs[i].r, qs, jobs[i].key)
+		jq := qs
+		if jobs[i].key == "content-types" {
+			jq = typeQs
+		}
+		e, ok := c04CheckRule(c, jobs[i].r, jq, jobs[i].key)
 		mu.Lock()
 		evals += e
 		if ok {
